@@ -43,13 +43,14 @@ class __ol_iter_wrapper:
 
 from ast import *
 
+import oneliner.utils as utils
 from oneliner.reserved_identifiers import OL_ITER_WRAPPER
 
 iter_wrapper_name = Name(id=OL_ITER_WRAPPER, ctx=Load())
 iter_wrapper_body = NamedExpr(
     target=Name(id=OL_ITER_WRAPPER, ctx=Store()),
     value=Call(
-        func=Name(id="type", ctx=Load()),
+        func=utils.builtin("type"),
         args=[
             Constant(value=OL_ITER_WRAPPER),
             Tuple(elts=[], ctx=Load()),
@@ -72,12 +73,12 @@ iter_wrapper_body = NamedExpr(
                             value=List(
                                 elts=[
                                     Call(
-                                        func=Name(id="setattr", ctx=Load()),
+                                        func=utils.builtin("setattr"),
                                         args=[
                                             Name(id="self", ctx=Load()),
                                             Constant(value="it"),
                                             Call(
-                                                func=Name(id="iter", ctx=Load()),
+                                                func=utils.builtin("iter"),
                                                 args=[Name(id="it", ctx=Load())],
                                                 keywords=[],
                                             ),
@@ -85,7 +86,7 @@ iter_wrapper_body = NamedExpr(
                                         keywords=[],
                                     ),
                                     Call(
-                                        func=Name(id="setattr", ctx=Load()),
+                                        func=utils.builtin("setattr"),
                                         args=[
                                             Name(id="self", ctx=Load()),
                                             Constant(value="_break"),
@@ -126,10 +127,10 @@ iter_wrapper_body = NamedExpr(
                                 ctx=Load(),
                             ),
                             body=Call(
-                                func=Name(id="next", ctx=Load()),
+                                func=utils.builtin("next"),
                                 args=[
                                     Call(
-                                        func=Name(id="iter", ctx=Load()),
+                                        func=utils.builtin("iter"),
                                         args=[List(elts=[], ctx=Load())],
                                         keywords=[],
                                     )
@@ -137,7 +138,7 @@ iter_wrapper_body = NamedExpr(
                                 keywords=[],
                             ),
                             orelse=Call(
-                                func=Name(id="next", ctx=Load()),
+                                func=utils.builtin("next"),
                                 args=[
                                     Attribute(
                                         value=Name(id="self", ctx=Load()),
